@@ -593,7 +593,20 @@ def known_ub_arithmetic(case, vio):
     return bool(m.ub)
 
 
+def known_string_index_after_decompile(case, vio):
+    """s" pushes the index of the string in the program's string table; decompiled() moves word definitions to the front, which
+    renumbers the strings of a program that has a string before a definition containing another one"""
+    if not vio.get("bucket", "").startswith("decompile:behaves-differently"):
+        return False
+    try:
+        prog = MF.compile_source(case["source"])
+    except (MF.CompileError, MF.Unspecified):
+        return False
+    return len(prog.strings) >= 2 and bool(prog.words) and 's"' in case["source"].split()
+
+
 KNOWN = {
+    "forth_string_index_after_decompile": known_string_index_after_decompile,
     "forth_ub_arithmetic": known_ub_arithmetic,
     "forth_structure_word_in_comment": known_structure_word_in_comment,
     "forth_pause_at_steploop_body_end": known_pause_at_steploop_body_end,
